@@ -81,11 +81,14 @@ Proof.
 Qed.
 Print Assumptions C01_invariant_preserved_by_deferred_vertex_and_edge_cores.
 
-(* NOT YET A THEOREM: C01_bu_exact : forall valid histories ops, vbu_ok (run ops) /\ ebu_ok (run ops) /\ fbu_ok (run ops)
-   (preservation of the invariant by every incremental update path).  The obstacle is reorder_incident_halffaces: it rewrites a
-   cache list with the result of an adjacency walk, which is a permutation of the old list only on manifold fans (C09), so the
-   invariant needs C09's single-fan hypothesis carried through every history.  Until then the invariant on reachable states rests
-   on item 2 (sound checkers on every explored state) and on the brute-force oracle on the real library. *)
+(* 7. Properties_C01_history.v (Kernel2/Exact*.v): the invariant, strengthened by duplicate-freeness of every halfface list, closedness
+      of every live cell and simplicity of faces, holds after EVERY history of growth operations, topology-checked add_cell on free
+      halffaces, and delete_vertex/edge/face/cell in deferred mode (C01_invariant_along_deferred_histories), including the re-ordering
+      of halffaces around edges in all its intermediate states.
+   STILL NOT A THEOREM: preservation by collect_garbage, swap_*_indices (with incidences on), set_*, immediate-mode deletion (the
+   index-shifting paths) and by add_cell without topology check - the last one is FALSE on cells that are not closed surfaces
+   (KNOWN_FINDINGS nonmanifold-cells-reorder, Kernel2/ReorderExact.v reorder_permutation_refuted).  For those the invariant on
+   reachable states rests on item 2 (sound checkers on every explored state) and on the brute-force oracle on the real library. *)
 
 Example C01_invariant_holds_on_a_state_with_pending_deletions :
   let s := run [AddVertices 5; AddFaceV [0; 1; 2]; AddFaceV [0; 2; 3]; AddFaceV [0; 3; 1]; AddFaceV [1; 3; 2];
